@@ -88,7 +88,12 @@ def execute(me, kind, inp, unit=U, int_dtype=False):
         if kind == "events":
             e, _ = u.adjust_events(np.array(inp["evs"], dtype=float) * U, None, t_min=tval(inp["tmin"]),
                                    t_max=tval(inp["tmax"]))
-            return {"exc": "", "evs": lat(e)}
+            # the same call with labels: the events must be the same and the labels travel with them
+            elabs = ["e%d" % (k + 1) for k in range(len(inp["evs"]))]
+            e2, l2 = u.adjust_events(np.array(inp["evs"], dtype=float) * U, elabs, t_min=tval(inp["tmin"]), t_max=tval(inp["tmax"]))
+            if lat(e2) != lat(e):
+                return {"exc": "events-depend-on-labels", "msg": "%r vs %r" % (lat(e), lat(e2))}
+            return {"exc": "", "evs": lat(e), "labs": list(l2)}
     except OffLattice as ex:
         return {"exc": "OffLatticeValue", "msg": str(ex)[:200]}
     except Exception as ex:  # noqa
@@ -253,8 +258,10 @@ def recorded_inner_calls(me, rng, n):
 
 def to_event(tid, kind, inp, res):
     full = {"ivs": [], "labs": [], "tmin": -1, "tmax": -1, "sl": "S", "el": "E", "xi": [], "xl": [], "yi": [],
-            "yl": [], "pts": [], "offset": 0, "size": 1, "evs": [], "n": 0}
+            "yl": [], "pts": [], "offset": 0, "size": 1, "evs": [], "n": 0, "elabs": []}
     full.update(inp)
+    if kind == "events":
+        full["elabs"] = ["e%d" % (k + 1) for k in range(len(full["evs"]))]
     return {"tid": tid, "kind": kind, "inp": full, "res": pad(res, kind)}
 
 
